@@ -235,6 +235,23 @@ Proof.
   unfold fresh_read, sval. rewrite (H x Hx). destruct (ival x); reflexivity.
 Qed.
 
+(* the effective slot length is always even and within [2, 20000] (what the node split relies on) *)
+Lemma slot_norm_even : forall n, Z.even (slot_norm n) = true /\ (2 <= slot_norm n <= 20000)%Z.
+Proof.
+  intros n. unfold slot_norm.
+  set (a := if Z.leb n 0 then 2000%Z else n).
+  assert (Ha : (0 < a)%Z) by (unfold a; destruct (Z.leb_spec n 0); lia).
+  set (b := if Z.odd a then (a - 1)%Z else a).
+  assert (Hb : Z.even b = true /\ (0 <= b)%Z).
+  { unfold b. destruct (Z.odd a) eqn:E.
+    - split; [|lia]. replace (a - 1)%Z with (Z.pred a) by lia. now rewrite Z.even_pred.
+    - split; [|lia]. rewrite <- Z.negb_odd, E. reflexivity. }
+  destruct Hb as [Hb1 Hb2].
+  destruct (Z.ltb_spec b 2).
+  - cbn. split; [reflexivity|lia].
+  - destruct (Z.ltb_spec 20000 b); [split; [reflexivity|lia]|split; [exact Hb1|lia]].
+Qed.
+
 (* ------------------------------------------------------------------ refuting witnesses *)
 
 Definition o_innode := mkOpts true false false.
